@@ -8,7 +8,7 @@ import z3
 import datetime
 import operator as _op
 from .vals import *   # noqa
-from .interp import (OutOfReach, PyRaise, Infeasible, TypeRef, ExcClass, ExcInst, FuncRef, ClassRef, Obj,
+from .interp import (Prod, SliceSym, OutOfReach, PyRaise, Infeasible, TypeRef, ExcClass, ExcInst, FuncRef, ClassRef, Obj,
                      NamedTupleClass, BoundMethod, Closure, Builtin, ExtRef, ModRef, TDelta, HostFn, int_term,
                      real_term, py_floordiv, py_mod, real_floor, real_ceil, real_trunc, norm_index, slice_bounds,
                      plain, KIND_TYPE, T_INT, T_FLOAT, T_BOOL, T_STR, T_LIST, T_TUPLE, T_NONE, T_COMPLEX,
@@ -462,6 +462,10 @@ class Ops(object):
 
     # ------------------------------------------------------------------ attribute access
     def getattr(self, it, base, name):
+        if isinstance(base, Prod):
+            if name == 'slice':
+                return [SliceSym(n) for n in base.names]
+            raise OutOfReach('production attribute %s' % name)
         if isinstance(base, ModRef):
             return self.world.module_attr(it, base.module, name)
         if isinstance(base, ExtRef):
@@ -530,6 +534,13 @@ class Ops(object):
     # ------------------------------------------------------------------ subscripts
     def getitem(self, it, base, idx):
         ctx = it.ctx
+        if isinstance(base, Prod):
+            if not is_plain_index(idx):
+                raise OutOfReach('symbolic index into a production')
+            n = len(base.vals)
+            if -n <= idx < n:
+                return base.vals[idx]
+            raise PyRaise('IndexError', ExcInst('IndexError'))
         if isinstance(base, dict):
             if isinstance(idx, Sym):
                 for k in base:
@@ -652,6 +663,11 @@ class Ops(object):
         return r
 
     def setitem(self, it, base, idx, v):
+        if isinstance(base, Prod):
+            if not is_plain_index(idx) or not (0 <= idx < len(base.vals)):
+                raise OutOfReach('store into a production at %r' % (idx,))
+            base.vals[idx] = v
+            return
         if isinstance(base, dict):
             if isinstance(idx, Sym):
                 raise OutOfReach('dict store with symbolic key')
